@@ -229,6 +229,7 @@ int vp_case(Choice& c, Report& rep) {
     pkt.assign(len, fill);
     for (int i = 0; i < nh; i++) { uint8_t b = c.byte(); if (i < len) pkt[i] = b; }
     rep.label("family:header");
+    rep.note("header-family packet: framing=%s total_len=%d fill=0x%02x header=%02x %02x %02x %02x", framing_sel ? "self-delimited" : "standard", len, fill, len > 0 ? pkt[0] : 0, len > 1 ? pkt[1] : 0, len > 2 ? pkt[2] : 0, len > 3 ? pkt[3] : 0);
     int r = check_packet(pkt.data(), len, framing_sel, false, rep);
     // non-trivial: within 3 bytes of an accept/reject boundary, or a two-byte length / padding chain
     bool nt = false;
@@ -249,6 +250,7 @@ int vp_case(Choice& c, Report& rep) {
     pkt.resize(len);
     c.bytes(pkt.data(), len);
     rep.label("family:raw");
+    rep.note("raw bytes len=%d first=%02x %02x %02x", len, len > 0 ? pkt[0] : 0, len > 1 ? pkt[1] : 0, len > 2 ? pkt[2] : 0);
     rep.fingerprint(fnv1a(pkt.data(), pkt.size()));
     int r = check_packet(pkt.data(), len, 2, c.chance(32), rep);
     return r;
